@@ -137,6 +137,20 @@ CHECKS = {
         note='Trusted: Coq kernel, extraction, the hand transcription of parse.rs/eval.rs/load.rs/graph.rs (Model/Parse.v, Model/Load.v) and the sampling of the differential check.',
         technique='Coq proof (loader invariant, dedup specification) + differential correspondence',
     ),
+    "C16": dict(
+        category="proof",
+        text="PARTIAL BY NATURE. Proved in Coq: the decoding of the wait status (success iff exited with 0, interruption iff SIGINT, everything else failure, total over all status words) and that the captured output is the concatenation of the chunks for every chunking. Tested black-box on the real binary (run-time facts a Gallina model cannot exhibit): each command is /bin/sh -c <evaluated string> (argv read back from /proc), runs in the build directory with stdin /dev/null and no leaked descriptors, output directories and response files exist beforehand, output blocks of 0..100000 bytes around the 4 KiB/64 KiB boundaries with interleaved stderr are shown once and contiguously at -j 1..16, exit codes and signals agree with the model's decode_status, SIGINT stops the build.",
+        design_ref='DESIGN.md §6 C16',
+        note='The theorems cover only the decision logic (Model/Proc.v); descriptor inheritance, /bin/sh invocation, kernel pipe delivery and printing are tested, not proved. The fancy (tty) console is not exercised.',
+        technique='Coq proof of the decision logic + black-box testing of the run-time behaviour (labelled partial)',
+    ),
+    "C17": dict(
+        category="proof",
+        text='Coq theorems over a thin orchestration model of run::build (if regeneration does not succeed nothing else runs and the result is not success; if a command ran for the manifest the main phase uses a state loaded from the world after regeneration only, and a manifest that no longer loads stops the invocation; an up-to-date manifest means no reload and the scheduler state is reused — the reuse case is part of `reachable`, so all scheduler theorems hold across it; tasks are summed over both phases). The weight is on trace acceptance: histories whose generator step rewrites build.ninja from an edited template (add/remove/rewire steps, command edits), every invocation replayed through the Sched and World models (phase split, reload, reuse) with monitors for phase order, failure stop, no spurious regeneration, and a clean-build comparison of the outputs.',
+        design_ref='DESIGN.md §6 C17',
+        note='Trusted: Coq kernel, extraction, the hand models, the sampling of trace acceptance. -f alternative manifest names are exercised only through the generic harness parameter.',
+        technique='Coq proof over an orchestration model + trace acceptance of regeneration histories',
+    ),
 }
 
 PENDING_REASON = "check not built yet in this round (work in progress, see DESIGN.md §10); not claimed"
